@@ -911,8 +911,19 @@ bool QXmppTransferManager::handleStanza(const QDomElement &element)
         return false;
     }
 
+    // Only requests of type 'set' and responses are handled here: a 'get' gets the default error
+    // reply, and a response that carries an IBB element must not be answered.
+    const auto type = element.attribute(u"type"_s);
+    if (type == u"get") {
+        return false;
+    }
+    const bool isResponse = type == u"result" || type == u"error";
+
     // XEP-0047 In-Band Bytestreams
-    if (QXmppIbbCloseIq::isIbbCloseIq(element)) {
+    if (isResponse &&
+        (QXmppIbbCloseIq::isIbbCloseIq(element) || QXmppIbbDataIq::isIbbDataIq(element) || QXmppIbbOpenIq::isIbbOpenIq(element))) {
+        return false;
+    } else if (QXmppIbbCloseIq::isIbbCloseIq(element)) {
         QXmppIbbCloseIq ibbCloseIq;
         ibbCloseIq.parse(element);
         ibbCloseIqReceived(ibbCloseIq);
